@@ -139,6 +139,8 @@ func getSortedNatural[T comparable](cont containers.Container[T]) []T {
 		return any(containers.GetSortedValues[int](x)).([]T)
 	case containers.Container[string]:
 		return any(containers.GetSortedValues[string](x)).([]T)
+	case containers.Container[J]: // not cmp.Ordered: GetSortedValues does not apply, use the Func variant
+		return any(containers.GetSortedValuesFunc[J](x, jCmp)).([]T)
 	}
 	panic("GetSortedValues: unsupported element type")
 }
@@ -777,6 +779,20 @@ func newDynRandom(c *core.Ctx, kind string, total bool) *Dyn {
 		}
 		d.Wide = true
 		c.Begin(kind, "New", d.Elem, d.Config, "wide")
+		return d
+	}
+	if r.Chance(1, 7) {
+		// struct elements / values with an omit-when-empty field
+		if isKV(kind) {
+			if r.Bool() {
+				d = NewDyn(kind, StrDom(r.Range(4, 14)), JDom(r.Range(4, 12)), cfg)
+			} else {
+				d = NewDyn(kind, IntDom(r.Range(4, 10)), JDom(r.Range(4, 12)), cfg)
+			}
+		} else {
+			d = NewDyn(kind, JDom(r.Range(4, 12)), IntDom(4), cfg)
+		}
+		c.Begin(kind, "New", d.Elem, d.Config)
 		return d
 	}
 	if isKV(kind) {
